@@ -38,3 +38,19 @@ VARIANTS = [
     silent("c12-gate-outside-early-dispatch",
            [(WK, "        else:\n            if self.current is None:\n                raise JaqalError(f\"gates must follow a {self.p_gate}\")\n", "        elif self.current is None:\n            raise JaqalError(f\"gates must follow a {self.p_gate}\")\n")], P),
 ]
+
+VARIANTS += [
+    # reverting the repair of the regression found by the C12 hunt
+    fire("c12-superseded-after-gates-accepted",
+         [(WK, "        if (\n            had_started\n            and (reps != 1)\n            and (self.current is not open_at_entry)\n            and (open_at_entry.gates != gates_at_entry)\n        ):\n            # The subcircuit that was open at entry is superseded in the\n            # body after gates of the body went into it: from the second\n            # pass on those gates follow a measure_all.\n            raise JaqalError(\n                \"gates before a prepare_all in a loop must follow a prepare_all in the same loop\"\n            )\n", "")],
+         ("*", "superseded-after-gates"), ("C12", "C08")),
+    fire("c12-gates-not-counted",
+         [(WK, "            self.current.gates += 1\n", "")],
+         ("*", "superseded-after-gates"), ("C12", "C08")),
+    fire("c12-last-trace-dropped-when-prepare-open",
+         [(WK, "        if subcircuits[-1].end is None:", "        if self.current is not None:")],
+         ("*", "last-trace-left-out"), ("C12", "C08")),
+    fire("c12-prepare-reuses-open-trace",
+         [(WK, "            c = self.current = Trace(self.address[:])", "            if self.current is None:\n                self.current = Trace(self.address[:])\n            else:\n                self.current.start = self.address[:]")],
+         ("*", "new-trace"), ("C12", "C08")),
+]
